@@ -1,2 +1,3 @@
 pub mod range;
 pub mod cfb;
+pub mod biff;
